@@ -10,6 +10,18 @@ CHECKS = {
  "C01": (TV, "Per program of the bounded families, z3 proves for all real (t, states, parameters) in the per-slot domain that the emitted NumPy rhs/monitor_values slot equals the independent reference meaning of the model text; the program axis is enumerated, not solved.", "4/C01",
          "SMT translation validation: symbolic execution of emitted NumPy AST vs reference semantics, z3 QF_NRA after Ackermannisation"),
 }
+CHECKS.update({
+ "C02": (TV, "Per program, the emitted C is compiled by gcc and clang in default mode, lowered by clang-14 to LLVM IR and executed symbolically; z3 proves each rhs/monitor/scheme/init slot equal to the reference meaning for all real inputs in the domain.", "4/C02",
+         "SMT translation validation of emitted C through clang LLVM IR vs reference semantics (z3 QF_NRA/LIA)"),
+ "C03": (TV, "Per program, every function of the module emitted with backend=jax is executed symbolically in the JAX dialect; z3 proves each returned entry equal to the reference and the returned array literal has the documented length; constructs jax.jit cannot trace are typed as errors.", "4/C03",
+         "SMT translation validation of emitted JAX module AST vs reference semantics, output-length obligations"),
+ "C05": (TV, "Per program and backend, z3 proves emitted explicit_euler[i] == states_i + dt*rhs[i] of the same module for all real inputs incl. dt, dt=0 gives the input, no store into inputs; all aliases generate the same body under the requested name.", "4/C05",
+         "relational SMT equivalence of two emitted functions (scheme vs rhs) per backend"),
+ "C06": (TV, "Per program, state, delta and backend, z3 proves the emitted generalized Rush-Larsen slot equals x+f/g(exp(g dt)-1) where |g|>delta and x+dt f where |g|<=delta or g==0, with g from an independent differentiator of the model text.", "4/C06",
+         "SMT translation validation vs formula built from an independent symbolic differentiator; case split on |g| vs delta"),
+ "C07": (TV, "Per model and every subset of states as stiff_states, z3 proves each hybrid slot equal to the generalized-RL slot (stiff) or the Euler slot (non-stiff) of the same emitted module for all real inputs.", "4/C07",
+         "relational SMT equivalence between emitted hybrid, RL and Euler functions; subsets enumerated exhaustively"),
+})
 PENDING = {}
 def main():
     props = [json.loads(l) for l in open(os.path.join(ROOT, "properties.jsonl"))]
